@@ -263,6 +263,40 @@ def stat_sink(st):
       f.write(json.dumps({"calls": st["calls"], "raised": st["raised"]}) + "\n")
 
 
+def witness_nested_read(rep):
+  """Fixed witness (outside the random bound): a trigger formula that adds a derived record, makes
+  the lookup map refresh, and then READS another row's formula cell.  get_formula_error evaluates
+  it and undoes the added record, but the formula cell recomputed in the nested update keeps the
+  value computed while the record existed."""
+  col = lambda i, t, f="", isf=None: {"id": i, "type": t, "isFormula": bool(f) if isf is None else isf,
+                                      "formula": f}
+  history = [
+    [["AddTable", "D", [col("k", "Int")]]],
+    [["AddTable", "X", [col("k", "Int"), col("cnt", "Any", "len(D.lookupRecords(k=$k))")]]],
+    [["AddTable", "P", [col("n", "Int"), col("t", "Any", "D.lookupOrAddDerived(k=5) and "
+                        "D.lookupRecords(k=5) and X.lookupOne(k=5).cnt", isf=False)]]],
+    [["BulkAddRecord", "D", [None], {"k": [1]}]],
+    [["BulkAddRecord", "X", [None, None], {"k": [5, 1]}]],
+    [["AddRecord", "P", None, {"n": 1, "t": 0}]],
+    [["Calculate"]],
+  ]
+  try:
+    e = eng.new_engine()
+    for b in history: eng.apply(e, b)
+    pre = eng.snapshot(e, private=True)
+    try: e.get_formula_error("P", "t", 1)
+    except Exception: pass
+    d = eng.diff_snapshots(pre, eng.snapshot(e, private=True))
+  except Exception as ex:
+    rep.crash("C29 witness: %r" % (ex,))
+    return
+  rep.coverage["witness_histories"] = 1
+  if d:
+    rep.violation("C29.snapshot_unchanged", {
+      "obligation": "C29.snapshot_unchanged", "class": "witness:nested-read-of-formula-cell-after-derived-add",
+      "history": history, "call": "get_formula_error('P', 't', 1)", "detail": {"diff": d}, "tier": "bounded"})
+
+
 def main():
   import glob, json, shutil, tempfile
   rep = common.Report("C29", "exploration")
@@ -300,6 +334,7 @@ def main():
         r = json.loads(line); calls += r["calls"]; raised += r["raised"]
     rep.coverage["read_only_calls"] = calls
     rep.coverage["read_only_calls_that_raised"] = raised
+    witness_nested_read(rep)
   finally:
     shutil.rmtree(d, ignore_errors=True)
   return rep.finish()
